@@ -288,7 +288,9 @@ def snap():
     for n in NAMES:
         args = () if n == "now" else ((column("x", String), "a") if n in ("strpos", "concat", "coalesce") else (column("x", String),))
         e = getattr(func, n)(*args)
-        out[n] = [type(e).__module__ + "." + type(e).__name__, str(e), repr(e.type)]
+        from sqlalchemy.dialects import sqlite, postgresql
+        out[n] = [type(e).__module__ + "." + type(e).__name__, str(e), repr(e.type),
+                  str(e.compile(dialect=sqlite.dialect())), str(e.compile(dialect=postgresql.dialect()))]
     return out
 history = %(history)r
 res = {}
